@@ -187,6 +187,9 @@ fn check(c: &Case, ctx: &Ctx) -> Outcome {
     let k = c.k;
     let dir = ctx.case_dir();
     let one_step = c.one_step && k == 17;
+    // names given in a file list are labels: any text without white space (isolate numbers written `#1`, lane ids
+    // such as `6925_3#2`); names derived from file paths (the one-step route) stay as they are
+    let disp: Vec<String> = m.samples.iter().enumerate().map(|(j, (n, _))| if one_step { n.clone() } else if j == 1 { format!("#{n}") } else if j == 3 { format!("6925_{n}#2") } else { n.clone() }).collect();
     let r: Result<(), Outcome> = (|| {
         let o = if one_step {
             let mut args: Vec<String> = vec!["align".into(), "--min-freq".into(), "1".into()];
@@ -202,7 +205,7 @@ fn check(c: &Case, ctx: &Ctx) -> Outcome {
             for (si, (n, recs)) in m.samples.iter().enumerate() {
                 let f = dir.join(format!("{n}.fa"));
                 cli::write_fasta_auto(&f, recs, width_of(c, si));
-                list += &format!("{n}\t{}\n", cli::p(&f));
+                list += &format!("{}\t{}\n", disp[si], cli::p(&f));
             }
             std::fs::write(dir.join("list.txt"), list).unwrap();
             let ks = k.to_string();
@@ -212,7 +215,7 @@ fn check(c: &Case, ctx: &Ctx) -> Outcome {
         must_ok(&o, "ska align --min-freq 1")?;
         let aln = model::parse_fasta(&o.out_str());
         let names: Vec<String> = aln.iter().map(|a| a.0.clone()).collect();
-        let exp_names: Vec<String> = m.samples.iter().map(|s| s.0.clone()).collect();
+        let exp_names: Vec<String> = disp.clone();
         if names != exp_names {
             return Err(Outcome::Fail(format!("names {:?}, expected {:?}", names, exp_names)));
         }
